@@ -9,14 +9,14 @@ import warnings
 import numpy as np
 
 
-def client_touch(rng, ds, feats, ctx=None, p=0.5, trace_ok=True):
+def client_touch(rng, ds, feats, ctx=None, p=0.5, trace_ok=True, forms=None):
     """Touch a random subset of `feats` of `ds` in a random read-only form."""
     import dclab.definitions as dfn
     done = []
     for f in feats:
         if rng.random() >= p:
             continue
-        form = int(rng.integers(0, 8))
+        form = int(rng.integers(0, 8)) if forms is None else int(rng.choice(forms))
         try:
             with np.errstate(all="ignore"), warnings.catch_warnings():
                 warnings.simplefilter("ignore")
